@@ -15,7 +15,7 @@ VERIF = os.path.dirname(os.path.dirname(os.path.abspath(__file__)))
 REPO = os.environ.get('VERIF_REPO', '/repo')
 TOOLS = os.path.join(VERIF, 'tools')
 NCPU = int(os.environ.get('VERIF_JOBS', '0')) or (os.cpu_count() or 4)
-MEM_KB = int(os.environ.get('VERIF_MEM_KB', str(14 * 1024 * 1024)))
+MEM_KB = int(os.environ.get('VERIF_MEM_KB', str(10 * 1024 * 1024)))
 
 CLANG_FLAGS = ['-std=c++17', '-O0', '-DNDEBUG', '-fno-discard-value-names', '-Xclang', '-disable-O0-optnone',
                '-S', '-emit-llvm', '-I' + REPO, '-I' + os.path.join(VERIF, 'shims'), '-DTLX_VERIF_EXTRACT']
